@@ -89,6 +89,18 @@ def extreme_cases(rng, count):
                     "a": rng.choice([-1, rng.randint(0, n)]), "alpha": R(rng.choice([1, Fraction(1, 2)])), "beta": R(rng.choice([0, Fraction(1, 2), 1])),
                     "exp": R(rng.choice([1, 2, 3])), "smooth": rng.choice([1, 2]), "m": len(xs), "j": 0, "radius": 1,
                     "maps": [R(ay), R(by), R(cx), R(dx)], "nonneg": True})
+    # the time axis far from the origin (epoch seconds, 2^40): integer abscissae, power-of-two n and scale, so that every grid
+    # point and every difference of grid points is exact in binary64 and the relation must hold to the last bit
+    for _ in range(count // 3):
+        s = rng.choice(["LinearFixed", "LinearAdaptive", "ExpFixed", "ExpAdaptive", "PiecewiseConstant"])
+        xs, ys = lattice_series(rng, 3, 7, vals=tuple(range(-6, 7)), den=1)
+        xs = [Fraction(i) for i in range(len(xs))] if rng.random() < 0.5 else [Fraction(int(v * 2)) for v in xs]
+        n = rng.choice([2, 4, 8])
+        out.append({"fn": "rfa_rel", "rel": "affine_exact", "strategy": s, "x": [R(v) for v in xs], "y": [R(v) for v in ys], "n": n,
+                    "a": rng.choice([-1, rng.randint(0, n)]), "alpha": R(rng.choice([1, Fraction(1, 2)])), "beta": R(rng.choice([0, Fraction(1, 2), 1])),
+                    "exp": R(rng.choice([1, 2, 3])), "smooth": rng.choice([1, 2]), "m": len(xs), "j": 0, "radius": 1,
+                    "maps": [R(1), R(0), R(Fraction(2) ** rng.choice([-4, 0, 0, 4])), R(0)], "dx_big": [rng.choice([-1, 1]), rng.choice([31, 40])],
+                    "nonneg": True})
     return out
 
 
